@@ -236,6 +236,9 @@ func checkC05(c *Ctx) {
 	}
 	c05Wiring(c, sp, enc, dec, tlane)
 	c05TableSites(c, tlane, ksFuncs)
+	if n := narrowShift(c, "K-NARROW-shift", []string{"sm4"}); n >= 0 {
+		c.Holds("K-NARROW-shift", "sm4", "no 8/16-bit value is shifted left by its width or more", fmt.Sprintf("%d narrow left shifts inspected", n), token.NoPos)
+	}
 
 	// --- FX-C05-pure
 	fx := getFX(c)
